@@ -1,41 +1,70 @@
 (* C15: decoding any encoding of the family in Spec/OdsSpec.v returns the table. *)
 From Coq Require Import Lia.
-From CP Require Import Model.Base Model.Lex Model.FieldTypes Model.Ods Spec.FieldSpec Spec.OdsSpec Proofs.BaseProofs Proofs.IntProofs.
+From CP Require Import Model.Base Model.Lex Model.FieldTypes Model.Ods Spec.FieldSpec Spec.OdsSpec Proofs.BaseProofs Proofs.IntProofs Generated.Consts.
 Local Open Scope Z_scope.
+
+(* ---------- sizes: a repeat count is at most _MAX_ODS_REPEATED_COUNT (read from the source) *)
+Definition fits (n : nat) : Prop := Z.of_nat n <= MAX_ODS_REPEATED_COUNT.
+Lemma fits_le n m : (n <= m)%nat -> fits m -> fits n.
+Proof. unfold fits. lia. Qed.
+(* a table no dimension of which exceeds the largest repeat count: rows, cells per row, characters per cell *)
+Definition small_text (v : text) : Prop := fits (length v).
+Definition small_row (row : list text) : Prop := fits (length row) /\ Forall small_text row.
+Definition small_table (t : list (list text)) : Prop := fits (length t) /\ Forall small_row t.
 
 (* ---------- run length encoding *)
 Definition expand {A} (rs : list (A * nat)) : list A := flat_map (fun p => repeat (fst p) (snd p)) rs.
+Definition okrun {A} (p : A * nat) : Prop := (1 <= snd p)%nat /\ fits (snd p).
 
 Lemma rle_expand {A} (eqb : A -> A -> bool) (H : forall x y, eqb x y = true -> x = y) (l : list A) :
-  expand (rle eqb l) = l /\ Forall (fun p => (1 <= snd p)%nat) (rle eqb l).
+  expand (rle eqb l) = l /\ Forall (fun p => (1 <= snd p <= length l)%nat) (rle eqb l).
 Proof.
   induction l as [|x r [IH1 IH2]]; cbn [rle]; [split; [reflexivity|constructor]|].
+  assert (W : forall ps : list (A * nat), Forall (fun p => (1 <= snd p <= length r)%nat) ps ->
+                                           Forall (fun p => (1 <= snd p <= length (x :: r))%nat) ps).
+  { intros ps. apply Forall_impl. intros p Hp. cbn [length]. lia. }
   destruct (rle eqb r) as [|[y n] t] eqn:E.
   - cbn in IH1. subst r. split; [reflexivity|]. constructor; [cbn; lia|constructor].
   - destruct (eqb x y) eqn:Exy.
     + apply H in Exy. subst y. split.
       * unfold expand in *. cbn [flat_map fst snd repeat] in *. cbn [app]. f_equal. exact IH1.
-      * inversion IH2; subst. constructor; [cbn in *; lia|assumption].
+      * inversion IH2 as [|p ps Hp Hps]; subst. constructor; [cbn [snd length] in *; lia|apply W; assumption].
     + split.
       * unfold expand in *. cbn [flat_map fst snd repeat app]. f_equal. exact IH1.
-      * constructor; [cbn; lia|exact IH2].
+      * constructor; [cbn [snd length]; lia|apply W; exact IH2].
 Qed.
-Lemma runs_expand {A} b (eqb : A -> A -> bool) (H : forall x y, eqb x y = true -> x = y) (l : list A) :
-  expand (runs b eqb l) = l /\ Forall (fun p => (1 <= snd p)%nat) (runs b eqb l).
+Lemma rle_in {A} (eqb : A -> A -> bool) (H : forall x y, eqb x y = true -> x = y) (l : list A) p :
+  In p (rle eqb l) -> In (fst p) l.
 Proof.
-  unfold runs. destruct b; [apply rle_expand; exact H|].
-  split.
-  - induction l as [|x l IH]; [reflexivity|]. unfold expand in *. cbn. f_equal. exact IH.
-  - apply Forall_forall. intros p Hin. apply in_map_iff in Hin as [x [<- _]]. cbn. lia.
+  revert p. induction l as [|x r IH]; intros p Hin; cbn [rle] in Hin; [contradiction|].
+  destruct (rle eqb r) as [|[y n] t] eqn:E.
+  - destruct Hin as [<-|[]]. left. reflexivity.
+  - destruct (eqb x y) eqn:Exy.
+    + apply H in Exy. subst y. destruct Hin as [<-|Hin]; [left; reflexivity|right; apply IH; right; exact Hin].
+    + destruct Hin as [<-|Hin]; [left; reflexivity|right; apply IH; exact Hin].
+Qed.
+Lemma runs_expand {A} b (eqb : A -> A -> bool) (H : forall x y, eqb x y = true -> x = y) (l : list A) : fits (length l) ->
+  expand (runs b eqb l) = l /\ Forall okrun (runs b eqb l) /\ (forall p, In p (runs b eqb l) -> In (fst p) l).
+Proof.
+  intros Hf. unfold runs. destruct b.
+  - destruct (rle_expand eqb H l) as [E F]. split; [exact E|]. split; [|intros p; apply rle_in; exact H].
+    revert F. apply Forall_impl. intros p [H1 H2]. split; [exact H1|]. apply (fits_le _ (length l)); assumption.
+  - split; [|split].
+    + induction l as [|x l IH]; [reflexivity|]. unfold expand in *. cbn. f_equal. apply IH. apply (fits_le _ (length (x :: l))); [cbn; lia|exact Hf].
+    + apply Forall_forall. intros p Hin. apply in_map_iff in Hin as [x [<- Hx]]. split; [cbn; lia|].
+      cbn [snd]. apply (fits_le _ (length l)); [|exact Hf]. destruct l; [contradiction|cbn; lia].
+    + intros p Hin. apply in_map_iff in Hin as [x [<- Hx]]. exact Hx.
 Qed.
 
 (* ---------- repeat counts *)
-Lemma count_attr st n : (1 <= n)%nat -> repeated_count (attr st n) = CountOk n.
+Lemma count_attr st n : (1 <= n)%nat -> fits n -> repeated_count (attr st n) = CountOk n.
 Proof.
-  intros Hn. unfold attr. destruct (Nat.eqb n 1 && negb (st_one st)) eqn:E.
+  intros Hn Hf. unfold attr. destruct (Nat.eqb n 1 && negb (st_one st)) eqn:E.
   - apply andb_true_iff in E as [E _]. apply Nat.eqb_eq in E. subst n. reflexivity.
   - unfold repeated_count. rewrite py_int_int_text.
-    assert (Z.of_nat n <? 1 = false) as -> by lia. rewrite Nat2Z.id. reflexivity.
+    assert (Z.of_nat n <? 1 = false) as -> by lia.
+    assert (MAX_ODS_REPEATED_COUNT <? Z.of_nat n = false) as -> by (unfold fits in Hf; lia).
+    rewrite Nat2Z.id. reflexivity.
 Qed.
 
 (* ---------- text inside a paragraph *)
@@ -55,19 +84,19 @@ Proof.
   intros H. induction n as [|n IH]; [reflexivity|].
   cbn [repeat inls_text fold_right]. fold (inls_text (repeat i n)). rewrite H, IH. reflexivity.
 Qed.
-Lemma enc_run_text st c n : (1 <= n)%nat -> inls_text (enc_run st (c, n)) = TOk (repeat c n).
+Lemma enc_run_text st c n : okrun (c, n) -> inls_text (enc_run st (c, n)) = TOk (repeat c n).
 Proof.
-  intros Hn. unfold enc_run.
+  intros [Hn Hf]. cbn [snd] in Hn, Hf. unfold enc_run.
   destruct (N.eqb c SP && st_s st) eqn:E1.
   - apply andb_true_iff in E1 as [E1 _]. apply N.eqb_eq in E1. subst c.
-    cbn [inls_text fold_right inl_text]. rewrite count_attr by exact Hn. cbn. rewrite app_nil_r. reflexivity.
+    cbn [inls_text fold_right inl_text]. rewrite count_attr by assumption. cbn. rewrite app_nil_r. reflexivity.
   - destruct (N.eqb c 9 && st_tab st) eqn:E2.
     + apply andb_true_iff in E2 as [E2 _]. apply N.eqb_eq in E2. subst c. apply inls_repeat. reflexivity.
     + destruct (N.eqb c LF) eqn:E3.
       * apply N.eqb_eq in E3. subst c. apply inls_repeat. reflexivity.
       * cbn. rewrite app_nil_r. reflexivity.
 Qed.
-Lemma enc_runs_text st rs : Forall (fun p => (1 <= snd p)%nat) rs ->
+Lemma enc_runs_text st rs : Forall okrun rs ->
   inls_text (flat_map (enc_run st) rs) = TOk (expand rs).
 Proof.
   induction rs as [|[c n] rs IH]; intros H; [reflexivity|].
@@ -79,10 +108,11 @@ Proof.
   cbn [inl_text]. induction l as [|x l IH]; [reflexivity|].
   cbn [inls_text fold_right]. fold (inls_text l). rewrite <- IH. reflexivity.
 Qed.
-Lemma enc_para_text st line : inls_text (enc_para st line) = TOk line.
+Lemma enc_para_text st line : small_text line -> inls_text (enc_para st line) = TOk line.
 Proof.
-  unfold enc_para.
-  destruct (rle_expand N.eqb (fun x y H => proj1 (N.eqb_eq x y) H) line) as [E F].
+  intros Hs. unfold enc_para.
+  destruct (runs_expand true N.eqb (fun x y H => proj1 (N.eqb_eq x y) H) line Hs) as [E [F _]].
+  unfold runs in E, F.
   pose proof (enc_runs_text st _ F) as T. rewrite E in T.
   destruct (st_span st); [|exact T].
   cbn [inls_text fold_right]. rewrite span_text, T. cbn. rewrite app_nil_r. reflexivity.
@@ -102,57 +132,83 @@ Proof.
   - pose proof (split_lf_nonempty r). destruct (split_lf r) as [|l ls] eqn:S; [contradiction|].
     destruct ls as [|l2 ls]; cbn [join_lf] in *; rewrite <- IH; reflexivity.
 Qed.
-Lemma paras_text_map st ls : ls <> [] -> paras_text (map (enc_para st) ls) = TOk (join_lf ls).
+(* no line is longer than the text *)
+Lemma split_lf_short s : Forall (fun l => (length l <= length s)%nat) (split_lf s).
 Proof.
-  induction ls as [|l ls IH]; intros H; [contradiction|].
+  induction s as [|c r IH]; cbn [split_lf]; [constructor; [cbn; lia|constructor]|].
+  assert (W : Forall (fun l => (length l <= length (c :: r))%nat) (split_lf r)).
+  { revert IH. apply Forall_impl. intros l Hl. cbn [length]. lia. }
+  destruct (N.eqb c LF).
+  - constructor; [cbn; lia|exact W].
+  - destruct (split_lf r) as [|l ls]; [constructor; [cbn; lia|constructor]|].
+    inversion IH; subst. inversion W; subst. constructor; [cbn [length] in *; lia|assumption].
+Qed.
+Lemma paras_text_map st ls : ls <> [] -> Forall small_text ls -> paras_text (map (enc_para st) ls) = TOk (join_lf ls).
+Proof.
+  induction ls as [|l ls IH]; intros H Hs; [contradiction|]. inversion Hs; subst.
   destruct ls as [|l2 ls].
-  - cbn. apply enc_para_text.
+  - cbn. apply enc_para_text. assumption.
   - change (map (enc_para st) (l :: l2 :: ls)) with (enc_para st l :: map (enc_para st) (l2 :: ls)).
     cbn [paras_text]. change (enc_para st l2 :: map (enc_para st) ls) with (map (enc_para st) (l2 :: ls)).
-    rewrite enc_para_text, IH by discriminate. reflexivity.
+    rewrite enc_para_text, IH by (assumption || discriminate). reflexivity.
 Qed.
-Lemma enc_text_text st v : paras_text (enc_text st v) = TOk v.
+Lemma enc_text_text st v : small_text v -> paras_text (enc_text st v) = TOk v.
 Proof.
-  unfold enc_text. destruct (st_para st).
-  - rewrite paras_text_map by apply split_lf_nonempty. rewrite join_split. reflexivity.
-  - cbn. apply enc_para_text.
+  intros Hs. unfold enc_text. destruct (st_para st).
+  - rewrite paras_text_map; [rewrite join_split; reflexivity|apply split_lf_nonempty|].
+    pose proof (split_lf_short v) as S. revert S. apply Forall_impl. intros l Hl. apply (fits_le _ (length v)); assumption.
+  - cbn. apply enc_para_text. exact Hs.
 Qed.
 
 (* ---------- cells, rows, tables *)
-Lemma cells_row_enc st rs : Forall (fun p => (1 <= snd p)%nat) rs ->
+Lemma cells_row_enc st rs : Forall okrun rs -> Forall (fun p => small_text (fst p)) rs ->
   cells_row (map (fun p => {| oc_rep := attr st (snd p); oc_paras := enc_text st (fst p) |}) rs) = Some (Some (expand rs)).
 Proof.
-  induction rs as [|[v n] rs IH]; intros H; [reflexivity|]. inversion H; subst.
-  cbn [map cells_row oc_rep oc_paras fst snd]. rewrite count_attr by assumption. rewrite enc_text_text, IH by assumption.
+  induction rs as [|[v n] rs IH]; intros H Hs; [reflexivity|]. inversion H as [|? ? [H1 H2]]; subst. inversion Hs; subst.
+  cbn [map cells_row oc_rep oc_paras fst snd] in *. rewrite count_attr by assumption. rewrite enc_text_text, IH by assumption.
   reflexivity.
 Qed.
-Lemma enc_row_decodes st row : cells_row (enc_row st row) = Some (Some row).
+Lemma enc_row_decodes st row : small_row row -> cells_row (enc_row st row) = Some (Some row).
 Proof.
-  unfold enc_row. destruct (runs_expand (st_cells st) text_eqb (fun x y H => proj1 (text_eqb_eq x y) H) row) as [E F].
-  rewrite cells_row_enc by exact F. rewrite E. reflexivity.
+  intros [Hf Hs]. unfold enc_row.
+  destruct (runs_expand (st_cells st) text_eqb (fun x y H => proj1 (text_eqb_eq x y) H) row Hf) as [E [F I]].
+  rewrite cells_row_enc; [rewrite E; reflexivity|exact F|].
+  apply Forall_forall. intros p Hp. rewrite Forall_forall in Hs. apply Hs. apply I. exact Hp.
 Qed.
-Lemma table_rows_enc st rs : Forall (fun p => (1 <= snd p)%nat) rs ->
+Lemma table_rows_enc st rs : Forall okrun rs -> Forall (fun p => small_row (fst p)) rs ->
   table_rows (map (fun p => {| or_rep := attr st (snd p); or_cells := enc_row st (fst p) |}) rs) = ORows (expand rs) false.
 Proof.
-  induction rs as [|[row n] rs IH]; intros H; [reflexivity|]. inversion H; subst.
-  cbn [map table_rows or_rep or_cells fst snd]. rewrite enc_row_decodes, count_attr, IH by assumption. reflexivity.
+  induction rs as [|[row n] rs IH]; intros H Hs; [reflexivity|]. inversion H as [|? ? [H1 H2]]; subst. inversion Hs; subst.
+  cbn [map table_rows or_rep or_cells fst snd] in *. rewrite enc_row_decodes, count_attr, IH by assumption. reflexivity.
 Qed.
 Lemma rows_eqb_eq (x y : list text) : list_eqb text_eqb x y = true -> x = y.
 Proof. apply list_eqb_eq. apply text_eqb_eq. Qed.
 
-Theorem enc_table_decodes st t : table_rows (enc_table st t) = ORows t false.
+Theorem enc_table_decodes st t : small_table t -> table_rows (enc_table st t) = ORows t false.
 Proof.
-  unfold enc_table. destruct (runs_expand (st_rows st) (list_eqb text_eqb) rows_eqb_eq t) as [E F].
-  rewrite table_rows_enc by exact F. rewrite E. reflexivity.
+  intros [Hf Hs]. unfold enc_table.
+  destruct (runs_expand (st_rows st) (list_eqb text_eqb) rows_eqb_eq t Hf) as [E [F I]].
+  rewrite table_rows_enc; [rewrite E; reflexivity|exact F|].
+  apply Forall_forall. intros p Hp. rewrite Forall_forall in Hs. apply Hs. apply I. exact Hp.
 Qed.
 
 (* sheet k of a document whose sheets are encoded with arbitrary (per sheet) styles *)
 Theorem ods_decodes (sheets : list (style * list (list text))) k st t : (1 <= k)%nat ->
-  nth_error sheets (k - 1) = Some (st, t) ->
+  nth_error sheets (k - 1) = Some (st, t) -> small_table t ->
   ods_rows (CDoc (map (fun p => enc_table (fst p) (snd p)) sheets)) k = ORows t false.
 Proof.
-  intros Hk Hn. unfold ods_rows. rewrite nth_error_map, Hn. cbn. apply enc_table_decodes.
+  intros Hk Hn Hs. unfold ods_rows. rewrite nth_error_map, Hn. cbn. apply enc_table_decodes. exact Hs.
 Qed.
+
+(* a repeat count beyond the largest one is refused *)
+Lemma large_count a z : py_int a = IOk z -> MAX_ODS_REPEATED_COUNT < z -> repeated_count (Some a) = CountBad.
+Proof.
+  intros E H. unfold repeated_count. rewrite E. destruct (z <? 1); [reflexivity|].
+  assert (MAX_ODS_REPEATED_COUNT <? z = true) as -> by lia. reflexivity.
+Qed.
+(* every table a spreadsheet application can hold is small: the bound is at least 2^20 rows *)
+Lemma max_count_is_large : 1048576 <= MAX_ODS_REPEATED_COUNT.
+Proof. vm_compute. discriminate. Qed.
 
 Theorem ods_missing_sheet tables k : (length tables < k)%nat -> ods_rows (CDoc tables) k = ORows [] true.
 Proof.
@@ -165,31 +221,36 @@ Proof.
   intros H Ho. unfold repeated_count. destruct (py_int a) as [z| |] eqn:E; [|reflexivity|congruence].
   specialize (H z eq_refl). assert (z <? 1 = true) as -> by lia. reflexivity.
 Qed.
-Theorem ods_bad_row_count st before a cells after :
+Lemma bad_after_runs st (rs : list (list text * nat)) bad_row after :
+  Forall okrun rs -> Forall (fun p => small_row (fst p)) rs ->
+  table_rows (bad_row :: after) = ORows [] true ->
+  table_rows (map (fun p => {| or_rep := attr st (snd p); or_cells := enc_row st (fst p) |}) rs ++ bad_row :: after)
+  = ORows (expand rs) true.
+Proof.
+  intros F S Hbad. induction rs as [|[r n] rs IH].
+  - cbn [map app]. exact Hbad.
+  - inversion F as [|? ? [H1 H2]]; subst. inversion S; subst. cbn [map app table_rows or_rep or_cells fst snd] in *.
+    rewrite enc_row_decodes, count_attr by assumption.
+    unfold expand. cbn [flat_map fst snd]. fold (expand rs).
+    rewrite IH by assumption. reflexivity.
+Qed.
+Theorem ods_bad_row_count st before a cells after : small_table before ->
   repeated_count (Some a) = CountBad -> (exists row, cells_row cells = Some (Some row)) ->
   table_rows (enc_table st before ++ {| or_rep := Some a; or_cells := cells |} :: after) = ORows before true.
 Proof.
-  intros Hbad [row Hrow]. unfold enc_table.
-  destruct (runs_expand (st_rows st) (list_eqb text_eqb) rows_eqb_eq before) as [E F].
-  revert E F. generalize (runs (st_rows st) (list_eqb text_eqb) before) as rs. intros rs. revert before.
-  induction rs as [|[r n] rs IH]; intros before E F.
-  - cbn in E. subst before. cbn [map app table_rows or_cells or_rep]. rewrite Hrow, Hbad. reflexivity.
-  - inversion F; subst. cbn [map app table_rows or_rep or_cells fst snd].
-    rewrite enc_row_decodes, count_attr by assumption.
-    unfold expand. cbn [flat_map fst snd]. fold (expand rs).
-    rewrite (IH (expand rs) eq_refl) by assumption. reflexivity.
+  intros [Hf Hs] Hbad [row Hrow]. unfold enc_table.
+  destruct (runs_expand (st_rows st) (list_eqb text_eqb) rows_eqb_eq before Hf) as [E [F I]].
+  rewrite bad_after_runs; [rewrite E; reflexivity|exact F| |].
+  - apply Forall_forall. intros p Hp. rewrite Forall_forall in Hs. apply Hs. apply I. exact Hp.
+  - cbn [table_rows or_cells or_rep]. rewrite Hrow, Hbad. reflexivity.
 Qed.
-Theorem ods_bad_cell_count st before a paras more after :
+Theorem ods_bad_cell_count st before a paras more after : small_table before ->
   repeated_count (Some a) = CountBad ->
   table_rows (enc_table st before ++ {| or_rep := None; or_cells := {| oc_rep := Some a; oc_paras := paras |} :: more |} :: after) = ORows before true.
 Proof.
-  intros Hbad. unfold enc_table.
-  destruct (runs_expand (st_rows st) (list_eqb text_eqb) rows_eqb_eq before) as [E F].
-  revert E F. generalize (runs (st_rows st) (list_eqb text_eqb) before) as rs. intros rs. revert before.
-  induction rs as [|[r n] rs IH]; intros before E F.
-  - cbn in E. subst before. cbn [map app table_rows or_cells or_rep cells_row oc_rep]. rewrite Hbad. reflexivity.
-  - inversion F; subst. cbn [map app table_rows or_rep or_cells fst snd].
-    rewrite enc_row_decodes, count_attr by assumption.
-    unfold expand. cbn [flat_map fst snd]. fold (expand rs).
-    rewrite (IH (expand rs) eq_refl) by assumption. reflexivity.
+  intros [Hf Hs] Hbad. unfold enc_table.
+  destruct (runs_expand (st_rows st) (list_eqb text_eqb) rows_eqb_eq before Hf) as [E [F I]].
+  rewrite bad_after_runs; [rewrite E; reflexivity|exact F| |].
+  - apply Forall_forall. intros p Hp. rewrite Forall_forall in Hs. apply Hs. apply I. exact Hp.
+  - cbn [table_rows or_cells or_rep cells_row oc_rep]. rewrite Hbad. reflexivity.
 Qed.
